@@ -4,7 +4,7 @@ cd "$(dirname "$0")/.." || exit 3
 bad=0
 for i in $(seq -w 1 20); do
   out=$(FCVERIF_NO_EVIDENCE=1 ./check C$i 2>&1); rc=$?
-  echo "$out" | grep -E "^FAIL|^MISSING|VIOLATION|Traceback|Error" | cut -c1-240
+  echo "$out" | grep -E "^FAIL|^MISSING|^VIOLATION|^Traceback|^[A-Za-z]*Error:" | cut -c1-240
   echo "$out" | tail -1 | grep -v " 0 violations (0 known)"
   [ $rc -ne 0 ] && bad=1
 done
